@@ -895,13 +895,20 @@ pub fn eval_totality(case: &Value) -> Outcome {
         let out = rw::rewrite(&config, &src2, &file2, &reader);
         let _ = tx.send(out);
     });
-    if spawned.is_err() {
+    let Ok(handle) = spawned else {
         return Outcome::inconclusive("cannot spawn a thread");
-    }
+    };
     let limit = std::env::var("VERIF_CALL_TIMEOUT_SECS").ok().and_then(|s| s.parse().ok()).unwrap_or(20u64);
     let out = match rx.recv_timeout(std::time::Duration::from_secs(limit)) {
-        Ok(o) => o,
+        Ok(o) => {
+            // joined, never detached: glibc's pthread_detach can touch the thread's control block after the exiting thread
+            // has unmapped its (large) stack - seen once as a segfault of the harness itself
+            let _ = handle.join();
+            o
+        }
         Err(_) => {
+            // the call does not return: its thread is abandoned (neither joined nor detached)
+            std::mem::forget(handle);
             let dir = std::env::var("VERIF_FOUND_DIR").unwrap_or_else(|_| format!("{}/replays/found", crate::engine::verif_root()));
             let _ = std::fs::create_dir_all(&dir);
             let path = format!("{dir}/C13-watchdog-{:016x}.json", crate::engine::hash_value(case));
